@@ -265,6 +265,139 @@ def server_worker(_job):
     return acc
 
 
+# ------------------------------------------------------------------ the connection path: second (final) parsing pass
+FINAL_HEADERS = ['Host a', 'Host a*', 'Host *', 'Host !a *', 'Host b.example ab', 'Match host a', 'Match originalhost ab', 'Match user u',
+                 'Match final', 'Match final host a*', 'Match final originalhost a', 'Match !final host a', 'Match final user u2',
+                 'Match final all']
+
+
+class _Stop(Exception):
+    pass
+
+
+def connect_options(cfgpath, host, user, port):
+    """What asyncssh.connect() is about to use for this target: the options object as it stands when the
+    connection would be opened (after the second parsing pass that a 'Match final' block asks for).  Seam:
+    the module-level tunnel opener, the first thing _connect calls after settling the options, is replaced
+    by a recorder that stops the attempt; no socket is opened."""
+    import asyncio
+    import asyncssh.connection as AC
+    got = {}
+
+    async def spy(_tunnel, options, _config):
+        got['o'] = options
+        raise _Stop()
+    orig = AC._open_tunnel          # pylint: disable=protected-access
+    AC._open_tunnel = spy
+    loop = asyncio.new_event_loop()
+    try:
+        loop.run_until_complete(asyncssh.connect(host, port or (), username=user or (), config=[cfgpath], known_hosts=None,
+                                                 client_keys=None, agent_path=None))
+    except _Stop:
+        pass
+    finally:
+        AC._open_tunnel = orig
+        loop.run_until_complete(loop.shutdown_asyncgens())
+        loop.close()
+    return got.get('o')
+
+
+def single_pass_headers(headers):
+    """The same blocks with the final pass written out: a block conditional on `final` holds (its other criteria
+    permitting), one conditional on `!final` does not.  ssh -G on this text is the documented one-pass reading
+    (first obtained value, Host against the name given) with the final pass in force."""
+    out = []
+    for h in headers:
+        if h.startswith('Match !final'):
+            out.append('Match host never.invalid')
+        elif h.startswith('Match final'):
+            rest = h[len('Match final'):].strip()
+            out.append('Match ' + (rest or 'all'))
+        else:
+            out.append(h)
+    return tuple(out)
+
+
+def _norm(ref):
+    def dedup(xs):
+        seen, out = set(), []
+        for x in xs:
+            if x not in seen:
+                seen.add(x)
+                out.append(x)
+        return out
+    return {'hostname': ref['hostname'][0], 'port': int(ref['port'][0]), 'user': ref['user'][0],
+            'proxyjump': ref.get('proxyjump', [None])[0], 'compression': ref.get('compression', ['no'])[0] == 'yes',
+            'sendenv': dedup(ref.get('sendenv', []))}
+
+
+def connect_compare(cfgpath, modelpath, host, user, port):
+    """returns (violations, judged).  Reference: `ssh -G` on the file itself; judged only where that equals `ssh -G`
+    on the one-pass reading of the file (modelpath).  Where the two differ, ssh's two-pass implementation departs
+    from the rules the property states (first obtained value in file order; Host against the name given): values
+    of the first pass win over earlier `Match final` lines, Hostname inside `Match final` is ignored, Host
+    patterns of the second pass see the rewritten name -- no verdict follows from the property there."""
+    ref, err = ssh_g(cfgpath, host, user, port)
+    ref1, err1 = ssh_g(modelpath, host, user, port)
+    try:
+        o = connect_options(cfgpath, host, user, port)
+        aerr = None if o is not None else 'connect() ended before opening anything'
+    except Exception as exc:        # pylint: disable=broad-except
+        o, aerr = None, repr(exc)
+    if ref is None or ref1 is None:
+        if ref is None and ref1 is None and o is not None:
+            return [('parse-disagreement', 'ssh -G: %s ; asyncssh.connect accepted the file' % err)], True
+        return [], False
+    if _norm(ref) != _norm(ref1):
+        return [], False
+    if o is None:
+        return [('parse-disagreement', 'ssh -G resolves the file ; asyncssh.connect: %s' % aerr)], True
+    want = _norm(ref)
+    got = {'hostname': o.host, 'port': o.port, 'user': o.username, 'proxyjump': o.tunnel or None,
+           'compression': bool(o.compression_algs and o.compression_algs[0] != b'none'),
+           'sendenv': [x.decode() if isinstance(x, bytes) else x for x in (o.send_env or ())]}
+    return [('option-differs', '%s: asyncssh.connect %r, ssh -G %r' % (k, got[k], want[k])) for k in want if got[k] != want[k]], True
+
+
+def connect_worker(job):
+    acc = core.Acc()
+    wd = os.path.join(SCRATCH, 'c%d' % os.getpid())
+    incdir = os.path.join(wd, 'inc')
+    os.makedirs(wd, exist_ok=True)
+    os.makedirs(HOME, exist_ok=True)
+    os.environ['HOME'] = HOME
+    for headers, variant in job:
+        cfgpath = os.path.join(wd, 'cfg')
+        modelpath = os.path.join(wd, 'cfg1')
+        text = program(headers, variant, incdir)
+        with open(cfgpath, 'w') as f:
+            f.write(text)
+        with open(modelpath, 'w') as f:
+            f.write(program(single_pass_headers(headers), variant, incdir))
+        for host in ('a', 'ab', 'b.example'):
+            for user in (None, 'u'):
+                for port in (None, 2222):
+                    viol, judged = connect_compare(cfgpath, modelpath, host, user, port)
+                    acc.count('connect:judged' if judged else 'connect:ssh-passes-disagree-not-judged')
+                    acc.add(core.digest(('connect', headers, variant, host, user, port)), transitions=1,
+                            sample={'connect_config': text[:300], 'target': [host, user, port]} if len(headers) == 2 and 'final' in headers[1] and host == 'a' and not user and not port and variant == 'tokens' else None)
+                    for k, d in viol:
+                        acc.violation('config:connect-%s:%s:%s' % (k, variant, d.split(':')[0]),
+                                      '%s ; target host=%s user=%s port=%s ; config:\n%s' % (d, host, user, port, text[:600]),
+                                      {'kind': 'connect', 'headers': list(headers), 'variant': variant, 'target': [host, user, port]})
+    shutil.rmtree(wd, ignore_errors=True)
+    return acc
+
+
+def connect_jobs(tier):
+    depth = 2 if tier == 'quick' else 3
+    hs = []
+    for n in range(1, depth + 1):
+        hs += [h for h in itertools.product(FINAL_HEADERS, repeat=n) if any('final' in x for x in h) or n == 1]
+    progs = [(h, v) for h in hs for v in ('plain', 'tokens')]
+    return [progs[i::64] for i in range(64)]
+
+
 def main(tier, seed):
     t0 = core.now()
     if not SSH:
@@ -280,6 +413,7 @@ def main(tier, seed):
     acc = core.pmap(client_worker, core.rotate([progs[i::64] for i in range(64)], seed))
     n_client = acc.evaluations
     acc.merge(core.pmap(server_worker, [0]))
+    acc.merge(core.pmap(connect_worker, core.rotate(connect_jobs(tier), seed)))
     shutil.rmtree(SCRATCH, ignore_errors=True)
     rule = ('client: every sequence of 1..%d conditional blocks over %d headers (Host patterns with wildcards and '
             'negation in either position, Match host/originalhost/user/localuser/all with negation and lists), every '
@@ -288,12 +422,18 @@ def main(tier, seed):
             'of existing, nested-Host and non-matching glob files; one Include naming several files or a glob matching '
             'several, some ending inside a non-matching block; the blocks as separate files given as a list) x 12 targets (3 hosts x user x port) vs ssh -G; '
             'each program also re-evaluated target after target on top of the previous evaluation (reload): equal to a fresh load; '
-            'server: %d AuthorizedKeysFile templates x %d user names' % (depth, len(HEADERS), len(TEMPLATES), len(USERS)))
+            'server: %d AuthorizedKeysFile templates x %d user names; connection path: asyncssh.connect() itself (stopped where it '
+            'would open the socket or tunnel) for every sequence of 1..%d blocks over %d headers with `Match [!]final` forms x '
+            '{plain, Hostname rewrite} x 12 targets: the options it is about to use equal ssh -G, judged where ssh -G of the file '
+            'equals ssh -G of its one-pass reading (counters connect:*)' % (depth, len(HEADERS), len(TEMPLATES), len(USERS), depth, len(FINAL_HEADERS)))
     return core.finish(PROP, tier, seed, 'exploration', acc, t0, rule,
                        {'programs': len(progs), 'ssh_G_calls': n_client},
                        assumptions=['OpenSSH 9.2 `ssh -G` is the reference; token expansion of IdentityFile (which '
-                                    'ssh -G prints raw) follows ssh_config(5)', 'Match exec / canonical / final passes '
-                                    'are not generated (they need DNS or a shell)'])
+                                    'ssh -G prints raw) follows ssh_config(5)', 'Match exec and canonical passes '
+                                    'are not generated (they need DNS or a shell)',
+                                    'final pass: where ssh -G of a file differs from ssh -G of its one-pass reading (first-pass values '
+                                    'winning over earlier Match final lines, Hostname inside Match final ignored, Host patterns seeing '
+                                    'the rewritten name) the property gives no verdict and the target is not judged'])
 
 
 def replay(rep):
@@ -301,6 +441,8 @@ def replay(rep):
     os.makedirs(HOME, exist_ok=True)
     if r['kind'] == 'client':
         acc = client_worker([(tuple(r['headers']), r['variant'])])
+    elif r['kind'] == 'connect':
+        acc = connect_worker([(tuple(r['headers']), r['variant'])])
     else:
         acc = server_worker(0)
     print(json.dumps(acc.violations[:5], indent=1, default=repr))
